@@ -526,6 +526,12 @@ def quadratic_partial_evaluate():
                     assert(rv(constant) + msum(gm, m) + quad_sum(n.rows@, n.columns@, n.values@, n.rows.len() as int, m) == quadratic_val(o, m));
                 }
             }
+            assert(fn_ids(fnw) == quadratic_ids(n) && fn_ids(fo) == quadratic_ids(o));
+            assert(dom_disjoint(fn_ids(fnw), st));
+            assert(fn_ids(fnw).subset_of(fn_ids(fo)));
+            assert(used@.subset_of(ids_in(fn_ids(fo), st)));
+            assert(fn_fin(fo) && state_fin(st) ==> fn_fin(fnw));
+            assert(fo.function is Some && fnw.function is Some);
             assert(pe_rel(fo, fnw, st, used@));
         }
         ''' % (Q0, FIN)
@@ -672,6 +678,15 @@ def polynomial_partial_evaluate():
                     lemma_pitems_sum(__t@, __t.len() as int, m); lemma_klist_sum(pt, __t.len() as int, am, pw(m)); }
             }
             assert(used0.subset_of(ids_in(polynomial_ids(*old(self)), st)));
+            // the conjuncts of pe_rel one by one (the solver should not have to find them in one step)
+            assert(fn_ids(fnw) == poly_ids(__t@, __t.len() as int) && fn_ids(fo) == polynomial_ids(*old(self)));
+            assert(dom_disjoint(fn_ids(fnw), st));
+            assert(fn_ids(fnw).subset_of(fn_ids(fo)));
+            assert(used0.subset_of(ids_in(fn_ids(fo), st)));
+            assert(fn_fin(fo) && state_fin(st) ==> fn_fin(fnw));
+            assert(fn_fin(fo) && state_fin(st) ==> forall|m: Map<u64, F64>| #![trigger fn_val(fnw, m)] agree(st, m) ==> fn_val(fnw, m) == fn_val(fo, m) - fn_pe_rem(fo, st, m)) by {
+                assert forall|m: Map<u64, F64>| fn_pe_rem(fo, st, m) == poly_pe_rem(*old(self), st, m) by {} }
+            assert(fo.function is Some && fnw.function is Some);
             assert(pe_rel(fo, fnw, st, used0));
         }
         ''' % (T0, FIN)
